@@ -955,6 +955,18 @@ func (x *vf02Run) exec(op vf02Op) {
 	case "inhume-container":
 		_, err := db.InhumeContainer(cnr)
 		res = vf02ErrClass(err)
+		if err == nil {
+			// the removal overwrites the counters with absolute values (and the reported
+			// container info of a removed container is empty): no echo of an earlier known
+			// mis-accounting can pass through it, so what is seen from here on is judged
+			// (and keyed) on its own
+			for _, g := range []string{"type-counters", "container-info"} {
+				if k := fmt.Sprintf("c%d/%s", ci, g); x.taint[k] != "" {
+					delete(x.taint, k)
+					x.r.Count("known_shape_echo_ended_by_container_removal", 1)
+				}
+			}
+		}
 	case "cleanup-container":
 		if pre == nil || !pre.removed {
 			res = "skipped"
@@ -1187,23 +1199,50 @@ func (x *vf02Run) compare(raw map[cid.ID]*vf02RawCnr, viaAPI bool) {
 		}
 		x.curCi = ci
 		exp := [5]uint64{e.phy, e.root, e.ts, e.lock, e.lnk}
+		// A removed container may be accounted as empty or as what is still indexed (the
+		// statement does not say whether the objects of a removed container that await GC
+		// are "indexed"), but it is ONE container: all five counters must follow the same
+		// reading.  The reading is the one most counters that can tell (indexed number > 0)
+		// agree with; a tie reads "empty" (what a removal that resets the counters means).
+		reading := [5]uint64{}
+		var asEmpty, asIndexed []string
+		if e.removed {
+			for i := range exp {
+				switch got := rc.counters[byte(6+i)]; {
+				case exp[i] == 0:
+				case got == 0:
+					asEmpty = append(asEmpty, names[i])
+				case got == exp[i]:
+					asIndexed = append(asIndexed, names[i])
+				}
+				if exp[i] > 0 {
+					r.Count("removed_container_comparisons_with_indexed_"+names[i], 1)
+				}
+			}
+			if len(asIndexed) > len(asEmpty) {
+				reading = exp
+				r.Count("removed_containers_accounted_as_still_indexed", 1)
+			} else if len(asEmpty) > 0 {
+				r.Count("removed_containers_accounted_as_empty", 1)
+			}
+		}
 		for i := range exp {
 			got := rc.counters[byte(6+i)]
 			lo, hi := exp[i], exp[i]
 			if e.removed {
-				lo = 0 // a removed container may be accounted as empty or as what is still indexed
+				lo = 0
 			}
 			sumLo[i] += lo
 			sumHi[i] += hi
 			if got > 1<<62 {
 				x.violationCause("counter-wrapped|"+names[i], names[i], 1, fmt.Sprintf("counter %s of c%d wrapped: %d", names[i], ci, got), nil)
 			}
-			if e.removed && got != 0 && got != exp[i] {
-				x.noteDrift(fmt.Sprintf("c%d/%s", ci, names[i]), names[i], int64(got)-int64(exp[i]), fmt.Sprintf("stored %s counter of removed container c%d is %d, indexed %d", names[i], ci, got, exp[i]))
-			} else if !e.removed {
-				x.noteDrift(fmt.Sprintf("c%d/%s", ci, names[i]), names[i], int64(got)-int64(exp[i]), fmt.Sprintf("stored %s counter of c%d is %d, metadata indexes %d such objects", names[i], ci, got, exp[i]))
+			if e.removed {
+				x.noteDrift(fmt.Sprintf("c%d/%s", ci, names[i]), names[i], int64(got)-int64(reading[i]),
+					fmt.Sprintf("stored %s counter of removed container c%d is %d while %d such objects are still indexed; the other counters of this container read: reset to 0 although objects are indexed %v, equal to the indexed number %v (a removed container is accounted as empty or as what is still indexed, all types alike)",
+						names[i], ci, got, exp[i], asEmpty, asIndexed))
 			} else {
-				x.noteDrift(fmt.Sprintf("c%d/%s", ci, names[i]), names[i], 0, "")
+				x.noteDrift(fmt.Sprintf("c%d/%s", ci, names[i]), names[i], int64(got)-int64(exp[i]), fmt.Sprintf("stored %s counter of c%d is %d, metadata indexes %d such objects", names[i], ci, got, exp[i]))
 			}
 			r.Count("comparisons", 1)
 		}
